@@ -364,7 +364,10 @@ package rtree
 //@   modifies nothing
 
 // The sort keeps each entry together with its distance: Swap exchanges both, Less looks at the distances.
-//@ opaque pred pairedD(p geom.Point, es []entry, ds []float64) = len(ds) >= len(es) && (forall i int :: 0 <= i && i < len(es) ==> es[i].bb != nil && ds[i] == mdS(p, *es[i].bb))
+// pairedD(p, es, ds): ds[i] is minDist(p, es[i].bb) for every i — es and ds were produced together by
+// sortEntries. It is kept abstract (an uninterpreted token): pruneEntries only has to be handed such a
+// pair, it does not reason about the distances; unfolding the definition slowed unrelated obligations.
+//@ spec pairedD(p geom.Point, es []entry, ds []float64) bool
 
 //@ func (s entrySlice) Len
 //@   prop C12
